@@ -14,7 +14,7 @@ import (
 
 func init() { register("c01", c01) }
 
-var c01Universe = []string{"a", "b", "s1", "s1_0001", "a_0001", "x y", " a", "a:b", "S1", "S2", "ab", "ba", "a_x", "xa"}
+var c01Universe = []string{"a01", "ab01", "a02", "a", "b", "s1", "s1_0001", "a_0001", "x y", " a", "a:b", "S1", "S2", "ab", "ba", "a_x", "xa"}
 
 func c01(args []string) error {
 	g, err := parseGenFlags("c01", args)
